@@ -47,8 +47,8 @@ def hidden_channels(b):
         (ts['args'][1] in ('hidden', 'both') and any('own' in c['sa'] for c in prog['calls']))
     ck = any(c['sk'] in ('foreign', 'own+f') for c in prog['calls']) or \
         (ts['kwargs'][1] in ('hidden', 'both') and any('own' in c['sk'] for c in prog['calls'])) or \
-        any(c.get('inarg') == 'mutate' for c in prog['calls']) or any(c['ctx'] in ('comp_rebinds_kwargs', 'loop_rebinds_kwargs') for c in prog['calls'])
-    ca = ca or any(c['ctx'] in ('comp_rebinds_args', 'loop_rebinds_args') for c in prog['calls'])
+        any(c.get('inarg') == 'mutate' for c in prog['calls']) or any(c['ctx'] in ('comp_rebinds_kwargs', 'genexp_rebinds_kwargs', 'loop_rebinds_kwargs') for c in prog['calls'])
+    ca = ca or any(c['ctx'] in ('comp_rebinds_args', 'genexp_rebinds_args', 'loop_rebinds_args') for c in prog['calls'])
     return ca, ck
 
 
@@ -358,6 +358,9 @@ def run(ctx):
               for s in ctx.shard_seeds(16)]
     # nested scopes with taint statements between the definition and the call of the nested function
     tasks += [(s + 1100, n // 64, {'ctxs': progs.NESTED_CTXS, 'routes': ('global', 'closure', 'self_method', 'attr'), 'max_calls': 2})
+              for s in ctx.shard_seeds(16)]
+    # several calls through one generic helper that is handed the callee (positionally or by keyword)
+    tasks += [(s + 1300, n // 64, {'routes': ('via_helper', 'via_helper_kw'), 'allow_taints': False, 'ctxs': ('return', 'assign', 'if', 'nested')})
               for s in ctx.shard_seeds(16)]
     total.merge(ctx.pmap(shard_hyp, tasks))
     return total
